@@ -234,7 +234,11 @@ class Shapes:
             if name == "SmallVec":
                 if a[0] != "array": raise TranslateError(f"SmallVec argument not understood in {near}")
                 a = a[1]
-            return {"k": "seq", "t": self.shape(a, near)}
+            es = self.shape(a, near)
+            # serde writes Vec<u8> / SmallVec<u8> / &[u8] element by element: length, then one raw
+            # byte each, which is byte for byte the `bytes` form (UniverseProofs.seq_u8_is_bytes)
+            if es == {"k": "u8"}: return {"k": "bytes"}
+            return {"k": "seq", "t": es}
         if name in MAPS and len(args) >= 2:
             return {"k": "map", "key": self.shape(args[0], near), "val": self.shape(args[1], near)}
         if name == "Bound" and len(args) == 1:       # serde: Unbounded | Included(T) | Excluded(T)
